@@ -50,6 +50,12 @@ def run(chk):
     yv = build_harness()
     yr = yv if quick else build_harness(release=True)
     wd = workdir("c07")
+    # long token streams over tiny alphabets full of signed zeros and ties (recorded first: the switch is an environment variable)
+    os.environ["YV_TOK_ZEROS"] = "1"
+    try:
+        tokfam.record_validate(chk, yv, "c07z", "sel", 1 if quick else 4, 21, 1500 if quick else 6000, 4)
+    finally:
+        os.environ.pop("YV_TOK_ZEROS", None)
     # long token streams (selection / crossing / reversal) on the real counters
     f1 = background(tokfam.record_validate, chk, yv, "c07", "rev", 3 if quick else 8, 9, 1500 if quick else 20000, 4)
     f2 = background(tokfam.record_validate, chk, yv, "c07", "sel", 2 if quick else 6, 14, 1500 if quick else 20000, 4)
